@@ -135,7 +135,7 @@ type EventLog struct {
 // TieFree reports that nothing in the run happened at (or within one microsecond of) the same
 // position inside a millisecond as the instant at.
 func (l *EventLog) TieFree(at time.Duration) bool {
-	f := int(at/time.Microsecond) % 1000
+	f := ((int(at/time.Microsecond) % 1000) + 1000) % 1000
 	return !l.Frac[f] && !l.Frac[(f+1)%1000] && !l.Frac[(f+999)%1000]
 }
 
@@ -149,7 +149,7 @@ func (l *EventLog) add(at time.Duration, actor, opname, detail string) {
 	l.sched.Write([]byte(actor + " " + opname + " " + detail + "\n"))
 	l.N++
 	if opname != "cancel" {
-		l.Frac[int(at/time.Microsecond)%1000] = true
+		l.Frac[((int(at/time.Microsecond)%1000)+1000)%1000] = true
 	}
 	if l.Keep {
 		l.Lines = append(l.Lines, line[:len(line)-1])
